@@ -23,7 +23,23 @@ type ObjRun struct {
 	Exp       Expect        `json:"expect"`
 	NullOrErr bool          `json:"null_or_error,omitempty"` // the script names a field the engine cannot represent
 	MayErr    bool          `json:"may_error,omitempty"`     // the object carries an unsupported field elsewhere
+	// Fault: before this run the host sets the script variable "fault"; the
+	// script's preamble then fails in the named way before it looks at the
+	// field (0 = no fault; the run is judged normally).
+	Fault int `json:"fault,omitempty"`
 }
+
+// faultPreamble makes a run fail on demand: inside nested calls, by runaway
+// recursion, by a wrong argument count, by panic() inside a loop.
+const faultPreamble = `function c4dive(n) { if ( n <= 0 ) { return 1 / 0; } return c4dive(n - 1) + 1; }
+function c4runaway(n) { return c4runaway(n + 1); }
+function c4two(p, q) { return p; }
+if ( fault == 1 ) { c4dive(3); }
+if ( fault == 2 ) { c4runaway(0); }
+if ( fault == 3 ) { c4two(1); }
+if ( fault == 4 ) { foreach c4q in [1, 2] { panic("x"); } }
+if ( fault == 5 ) { c4r = c4dive(40) + c4nosuch(1); }
+`
 
 // ObjSeqCase runs one script over a sequence of different objects on one evaluator.
 type ObjSeqCase struct {
@@ -58,9 +74,18 @@ func runObjSeq(c *ObjSeqCase) error {
 		if berr != nil {
 			return berr
 		}
+		if strings.HasPrefix(c.Script, faultPreamble) {
+			r.E.SetVariable("fault", eng.ToObject(lang.Int(int64(o.Fault))))
+		}
 		res := r.Execute(obj)
 		if res.Panic != nil {
 			return fmt.Errorf("run %d: panic escaped Execute: %v", i, res.Panic)
+		}
+		if o.Fault != 0 {
+			if res.Err == nil {
+				return fmt.Errorf("harness: run %d was meant to fail (fault %d) but returned %s", i, o.Fault, res.Val.Describe())
+			}
+			continue
 		}
 		// Run must not panic either, and must agree on failing
 		var runErr error
@@ -338,6 +363,22 @@ func TestC04(t *testing.T) {
 			gm.Globals[k] = v
 		}
 		c.Runs = append(c.Runs, ObjRun{Obj: good, Exp: expectFromModel(gm, prog)})
+		if gen.Uniform(rt, "faultruns", 3) == 0 {
+			// between the records some runs fail (the host sets "fault" first):
+			// the next record is still seen as it is
+			c.Script = faultPreamble + c.Script
+			var runs []ObjRun
+			for _, rn := range c.Runs {
+				if rapid.Bool().Draw(rt, "failfirst") {
+					bad := rn
+					bad.Fault = rapid.IntRange(1, 5).Draw(rt, "fault")
+					runs = append(runs, bad)
+				}
+				runs = append(runs, rn)
+			}
+			c.Runs = runs
+			col.Class("with-failing-runs-between")
+		}
 		if err := runObjSeq(c); err != nil {
 			c.Msg = err.Error()
 			violation(rt, "C04", c, "%v", err)
